@@ -7,7 +7,7 @@ CRATES = ["pocket_types", "pocket_db", "mmap_append"]
 class Fn:
     __slots__ = ("path", "kind", "sp", "vis", "unsafe", "inputs", "output", "reachable",
                  "parent", "impl_self", "impl_trait", "derived", "body", "promoted", "crate",
-                 "raw", "_cfg")
+                 "raw", "_cfg", "nice")
 
     def __init__(self, raw, crate):
         self.raw = raw
@@ -27,6 +27,26 @@ class Fn:
         self.body = raw["body"]
         self.promoted = raw.get("promoted", [])
         self._cfg = None
+        self.nice = self._nice()
+
+    def _nice(self):
+        """readable, impl-number-free name: crate::Type::method / crate::<Type as Trait>::method"""
+        parts = self.path.split("::")
+        name = parts[-1]
+        if self.kind == "Closure":
+            return self.path
+        if self.impl_self is not None:
+            t = self.impl_self["t"]
+            while t["k"] in ("ref",):
+                t = t["to"]
+            if t["k"] == "adt":
+                st = t["path"].split("::")[-1]
+            else:
+                st = self.impl_self["s"]
+            if self.impl_trait:
+                return "%s::<%s as %s>::%s" % (self.crate, st, self.impl_trait.split("::")[-1], name)
+            return "%s::%s::%s" % (self.crate, st, name)
+        return self.path
 
     @property
     def blocks(self):
@@ -56,6 +76,8 @@ class Facts:
         self.adts = {}
         self.impls = []
         self.statics = {}
+        self.by_nice = {}
+        self._pure = None
         for c in CRATES:
             p = os.path.join(d, c + ".json")
             with open(p) as f:
@@ -64,6 +86,7 @@ class Facts:
             for fr in raw["fns"]:
                 fn = Fn(fr, c)
                 self.fns[fn.path] = fn
+                self.by_nice.setdefault(fn.nice, []).append(fn)
             for a in raw["adts"]:
                 self.adts[a["path"]] = a
             for i in raw["impls"]:
@@ -78,6 +101,26 @@ class Facts:
         if f is None:
             raise AnchorMissing("function", path)
         return f
+
+    def nice(self, name):
+        """lookup by readable name (see Fn.nice); must be unique; fail closed"""
+        l = self.by_nice.get(name)
+        if not l:
+            raise AnchorMissing("function", name)
+        if len(l) > 1:
+            raise AnchorMissing("ambiguous function", name)
+        return l[0]
+
+    def nice_of(self, path):
+        f = self.fns.get(path)
+        return f.nice if f is not None else path
+
+    @property
+    def pure(self):
+        if self._pure is None:
+            from .purity import compute_pure
+            self._pure = compute_pure(self)
+        return self._pure
 
     def find(self, suffix):
         """All functions whose path ends with ::suffix (or equals it)."""
